@@ -15,7 +15,10 @@ psParseBufCopyN, sslUpdateHSHash, tls13TranscriptHashUpdate return) and fresh he
 of every configuration, every corpus / directed case and a deterministic sample of the exploration (all of it in
 thorough) are run again in fresh children under other stack paints / heap fills and every observable (result line:
 return codes, alert, hash and length of bytes queued and of plaintext delivered, state, expectedName, ALPN) must be
-identical (`uninit:stack:*` / `uninit:heap:*`); `u paint` is the positive control of the painter.  A length
+identical (`uninit:stack:*` / `uninit:heap:*`); one of the further runs leaves the stack unpainted (sStale: a value
+that is only right because an earlier call left it in the same slot); `u paint` is the positive control of the painter.
+The same harness built without sanitizers runs the legal traces, corpus, directed cases and a sample of the
+exploration under valgrind memcheck when valgrind is installed (`uninit:memcheck:<function>`).  A length
 argument handed to psParseBufCopyN that claims more room than the target object has is reported by the capacity audit
 (`uninit:arg:*`): a slot the compiler re-uses inside the frame cannot be painted from outside.
 The message / extension parsers behind the modelled framing are explored only (EXPLORED_ONLY)."""
@@ -615,7 +618,7 @@ def paint_differential(ck, h, lines, labels, base, npaints):
 VG_HARNESS_FRAMES = ("__wrap_", "feed_api", "child_", "body_", "run_forked", "main", "drain_out", "op_", "prepare_state", "run_prefix", "mk_pair")
 
 
-def memcheck_pass(ck, lines, labels, nproc=4):
+def memcheck_start(ck, lines, nproc=2):
     """the same harness without sanitizers under valgrind memcheck (definedness is tracked per bit, so a value that is
     only right because an earlier call left it on the stack is seen as well).  stdout of the harness and the valgrind
     log share one pipe: the messages that precede a result line belong to that case."""
@@ -623,13 +626,13 @@ def memcheck_pass(ck, lines, labels, nproc=4):
     if not shutil.which("valgrind"):
         ck.log("memcheck pass skipped: valgrind not installed")
         ck.cov["memcheck_cases"] = 0
-        return 0
+        return None
     hv = ck.cc("h_wire.c", variant="plain", wraps=WRAPS + ["matrixSslDecode"])
     buckets = [list(range(i, len(lines), nproc)) for i in range(nproc)]
     procs = []
     for b in buckets:
         b.sort(key=lambda i: (tuple(lines[i].split(" ", 3)[:3]), i))        # cases of one state together (state cache)
-        p = subprocess.Popen(["valgrind", "-q", "--track-origins=yes", "--num-callers=14", "--error-limit=no", hv],
+        p = subprocess.Popen(["valgrind", "-q", "--track-origins=yes", "--num-callers=14", "--error-limit=no", "--run-libc-freeres=no", hv],
                              stdin=subprocess.PIPE, stdout=subprocess.PIPE, stderr=subprocess.STDOUT, text=True, errors="replace")
         procs.append((p, b))
     import threading
@@ -648,6 +651,12 @@ def memcheck_pass(ck, lines, labels, nproc=4):
                 pend = []; k += 1
     ths = [threading.Thread(target=work, args=pb) for pb in procs]
     for t in ths: t.start()
+    return (ths, found)
+
+
+def memcheck_finish(ck, handle, lines, labels):
+    if handle is None: return 0
+    ths, found = handle
     for t in ths: t.join()
     n = 0
     for i in sorted(found):
@@ -1094,7 +1103,7 @@ def explore(ck, h, quick_per_state, thorough_per_state):
         lines = lines + sn
     # paint differential: legal traces of every configuration, all corpus / directed cases, a deterministic sample of
     # the exploration (every case in thorough)
-    step = ck.budget(8, 1)
+    step = ck.budget(10, 1)
     ncorp = len(corp)
     idx = list(range(ncorp)) + list(range(ncorp, ncorp + len(cases), step))
     pl = ["cap %s" % c for c in CFGS] + [lines[i] for i in idx] + sn
@@ -1109,9 +1118,18 @@ def explore(ck, h, quick_per_state, thorough_per_state):
             return ""
     lab = [("legal-trace", "legal-trace")] * len(CFGS) + [("corpus" if i < ncorp else cases[i - ncorp][0], msg_of(lines[i])) for i in idx] + \
           [("directed-sni", "client_hello")] * len(sn)
+    # valgrind memcheck on the plain build (two processes, next to the differential): legal traces, corpus, directed
+    # cases; thorough: every 5th exploration case as well
+    nfix = len(CFGS) + ncorp
+    vi = list(range(nfix)) + (list(range(nfix, len(pl) - len(sn), 5)) if ck.tier != "quick" else []) + list(range(len(pl) - len(sn), len(pl)))
+    vl, vlab = [pl[i] for i in vi], [lab[i] for i in vi]
+    tv = time.time()
+    mh = memcheck_start(ck, vl)
     t = time.time()
     nd = paint_differential(ck, h, pl, lab, pb, ck.budget(3, 5))
     ck.log("paint differential: %d cases x %d further paints, %d differences, %.1fs" % (len(pl), ck.budget(3, 5), nd, time.time() - t))
+    nv = memcheck_finish(ck, mh, vl, vlab)
+    ck.log("memcheck pass: %d cases, %d with reports, %.1fs (concurrent with the differential)" % (ck.cov.get("memcheck_cases", 0), nv, time.time() - tv))
     ck.cov["evaluations"] += len(lines)
     ck.cov["exploration_cases"] = len(lines)
     ck.cov["exploration_findings"] = nfind
@@ -1127,7 +1145,8 @@ def run(ck):
                    "harness/h_wire.c + sess.h (ASan+UBSan+LSan build; link-time wraps of entropy/clock, sslUpdateHSHash (logging), matrixSslDecode (scripted for `u api`), psParseBufFromStaticData / psParseTlsVariableLengthVec / psParseBufCopyN / tls13TranscriptHashUpdate (stack paint points, capacity audit); decrypt/verifyMac spies and null cipher through the ssl_t function pointers)",
                    "modelled, not verified: coq/Wire/WireModel.v is a hand-written transcription of the framing code, compared with the library on every run",
                    "gcc AddressSanitizer / UndefinedBehaviorSanitizer / LeakSanitizer as the oracle for faults outside the model",
-                   "uninitialised memory: paint differential only - a read is seen when it changes an observable and the slot lies in stack "
+                   "valgrind memcheck (plain build of the same harness; skipped with a log line when valgrind is not installed)",
+                   "uninitialised memory: paint differential - a read is seen when it changes an observable and the slot lies in stack "
                    "below a paint point or in a fresh malloc block (<= 64 KB filled); slots re-used inside one frame and values kept in registers are not painted"]
     ck.assumptions += ["record-layer session state is well formed: recordHeadLen is 13 exactly for sessions created with SSL_FLAGS_DTLS (matrixssl.c 615-636; checked by the `u hdr` probes)",
                        "oracle contracts (coq/Wire/WireSpec.v dec_contract): on MATRIXSSL_SUCCESS / DTLS_RETRANSMIT / SSL_ALERT / SSL_PROCESS_DATA the decoder moved *buf by at most *len and by at least 1 when data is left; an SSL_SEND_RESPONSE fits inbuf and (appended) SSL_MAX_BUF_SIZE; MATRIXSSL_ERROR carries a documented negative code - the modelled header/CCS/handshake loops are proved to satisfy the first part, the unmodelled parsers are explored only",
